@@ -258,6 +258,13 @@ FILT_SHAPES = [
     ("IGNORE=(\n   {c1}\n   .EQ.1\n   ,\n   {c1}.EQ.4\n   )", [["{c1}", ".EQ.", "1"], ["{c1}", ".EQ.", "4"]], "IGNORE"),
     ("IGNORE=({c1} .EQ. 1)", [["{c1}", ".EQ.", "1"]], "IGNORE"),
     ("IGNORE=({c3}.EQ.0)", [["{c3}", ".EQ.", "0"]], "IGNORE"),
+    # operator omitted = .EQ. (NM-TRAN: "label value"); alone, after and before a filter with another operator
+    ("IGNORE=({c1} 1)", [["{c1}", ".EQ.", "1"]], "IGNORE"),
+    ("IGNORE=({c3}.GE.3,{c1} 1)", [["{c3}", ".GE.", "3"], ["{c1}", ".EQ.", "1"]], "IGNORE"),
+    ("IGNORE=({c1} 4,{c3}.LT.3)", [["{c1}", ".EQ.", "4"], ["{c3}", ".LT.", "3"]], "IGNORE"),
+    ("IGNORE=({c3}.NE.3) IGNORE=({c1} 1)", [["{c3}", ".NE.", "3"], ["{c1}", ".EQ.", "1"]], "IGNORE"),
+    ("IGNORE=({c1}.NEN.4,{c1} 1)", [["{c1}", ".NEN.", "4"], ["{c1}", ".EQ.", "1"]], "IGNORE"),
+    ("ACCEPT=({c1} 1)", [["{c1}", ".EQ.", "1"]], "ACCEPT"),
 ]
 MODEL_TEXTS = [
     "A,B,C\n1,x,3\n4,5,.\n7,8\n",
